@@ -1473,6 +1473,10 @@ class Parallel(Logger):
         batch_size = self._get_batch_size()
 
         with self._lock:
+            if self._aborting:
+                # The call was aborted while waiting for the lock.
+                return False
+
             # to ensure an even distribution of the workload between workers,
             # we look ahead in the original iterators more than batch_size
             # tasks - However, we keep consuming only one batch at each
@@ -1632,8 +1636,11 @@ class Parallel(Logger):
             )
 
     def _abort(self):
-        # Stop dispatching new jobs in the async callback thread
-        self._aborting = True
+        # Stop dispatching new jobs in the async callback thread. Take the lock
+        # to wait for a dispatch that is in progress in a callback thread:
+        # no item is taken from the input once this method has returned.
+        with self._lock:
+            self._aborting = True
 
         # If the backend allows it, cancel or kill remaining running
         # tasks without waiting for the results as we will raise
